@@ -24,7 +24,9 @@ REDUCED = ['gdown4', 'gammadown3', 'Kdown3', 'betaup3', 'dtbetaup3', 'rho',
            'dtconserved']
 HELPERS = ['h:s_covd_u', 'h:Lie_dd', 'h:s_curl', 'h:tetrad_base',
            'h:null_ray', 'h:st_covd_d', 'h:null_vector_base']
-CORE_KW = {'center': (3.0, 3.0, 3.0), 'extract_radii': [1.0], 'lmax': 2}
+# (options given as arrays, unsorted radii: they are caller-owned objects too)
+CORE_KW = {'center': np.array([3.0, 3.0, 3.0]),
+           'extract_radii': np.array([1.2, 0.8]), 'lmax': 2}
 _INPUT_CACHE = {}
 
 
